@@ -12,7 +12,7 @@ import SquidModel.Properties.C04
 #print axioms SquidModel.C04.request_nominated_not_copied_partial
 #print axioms SquidModel.C04.own_case_ids
 #print axioms SquidModel.C04.request_nominated_own_case_counterexample
-#print axioms SquidModel.C04.vt_element_counterexample
+#print axioms SquidModel.C04.vt_element_regression
 #print axioms SquidModel.C04.dquote_counterexample
 #print axioms SquidModel.C04.reply_registry_hop_by_hop_not_copied
 #print axioms SquidModel.C04.reply_standard_hop_by_hop
